@@ -28,6 +28,7 @@ RULE = (
     "longer) resumed through the durable file; non-trivial = at least 3 updates compared in every member of the group; "
     "distinct = distinct group digests"
 )
+LIFECYCLES = {}  # shared object life cycles (scen.add_lifecycles) with their default rates
 BUDGET = {"quick": {"runs": 400, "chunk": 8}, "thorough": {"runs": 40000, "chunk": 10}}
 COMPONENTS = {"real": ["Runner/DataHandler/RunningState", "TDGLSolver.update + solve seeding path", "Solution.from_hdf5 / Device.from_hdf5"], "stub": ["monitor subprocess (recorded)", "wall clock / perf_counter (simulated)", "input()"]}
 STATE = ("psi", "mu", "supercurrent", "normal_current", "induced_vector_potential")
